@@ -209,6 +209,17 @@ func auditFunc(fn *ssa.Function) []blockingOp {
 					}
 				}
 				add("select", x.Pos(), ok, "blocking select without a case on the Done() channel of the instance's lifetime context (a context stored in a field, e.g. p.ctx); a caller-supplied context alone does not end the wait at shutdown")
+				// a select inside a loop: the branch taken when the lifetime context is done must
+				// leave the loop (otherwise the goroutine spins or blocks again after shutdown)
+				if ok && cfgReaches(x.Block(), x.Block()) {
+					for k, st := range x.States {
+						if st.Dir == types.RecvOnly && (isLifetimeCtxDone(st.Chan) || isParamCtxDone(st.Chan, lifetimeParam[fn])) {
+							if tgt := selectCaseTarget(x, k); tgt != nil {
+								add("shutdown-exit", x.Pos(), !cfgReaches(tgt, x.Block()), "the case taken when the lifetime context is done leads back to the select: the loop does not end at shutdown")
+							}
+						}
+					}
+				}
 			case *ssa.Send:
 				ok, why := sendOK(x)
 				add("send", x.Pos(), ok, why)
@@ -424,4 +435,59 @@ func sendOK(x *ssa.Send) (bool, string) {
 		return true, ""
 	}
 	return false, "plain channel send that no cancellation can abandon (" + strings.TrimSpace(x.String()) + ")"
+}
+
+// selectCaseTarget: the block executed when case k of the select was chosen (nil if the usual
+// extract/compare/branch shape is not found - then nothing is judged).
+func selectCaseTarget(x *ssa.Select, k int) *ssa.BasicBlock {
+	if x.Referrers() == nil {
+		return nil
+	}
+	for _, r := range *x.Referrers() {
+		ex, ok := r.(*ssa.Extract)
+		if !ok || ex.Index != 0 || ex.Referrers() == nil {
+			continue
+		}
+		for _, r2 := range *ex.Referrers() {
+			bo, ok := r2.(*ssa.BinOp)
+			if !ok || bo.Op != token.EQL || bo.Referrers() == nil {
+				continue
+			}
+			c, ok := bo.Y.(*ssa.Const)
+			if !ok || c.Value == nil || c.Int64() != int64(k) {
+				continue
+			}
+			for _, r3 := range *bo.Referrers() {
+				if iff, ok := r3.(*ssa.If); ok && len(iff.Block().Succs) == 2 {
+					return iff.Block().Succs[0]
+				}
+			}
+		}
+	}
+	return nil
+}
+
+// blockReaches: to is reachable from a successor path starting at from (from itself counts only
+// if it lies on a cycle).
+func cfgReaches(from, to *ssa.BasicBlock) bool {
+	seen := map[*ssa.BasicBlock]bool{}
+	var stack []*ssa.BasicBlock
+	if from != to {
+		stack = append(stack, from)
+	} else {
+		stack = append(stack, from.Succs...)
+	}
+	for len(stack) > 0 {
+		b := stack[len(stack)-1]
+		stack = stack[:len(stack)-1]
+		if b == to {
+			return true
+		}
+		if seen[b] {
+			continue
+		}
+		seen[b] = true
+		stack = append(stack, b.Succs...)
+	}
+	return false
 }
